@@ -149,6 +149,11 @@ namespace OpenMEEG {
     /******************************************************************/
 
 
+    // A vertex whose distance to the other triangle's plane is below the rounding level of its own evaluation
+    // (relative 1e-10, as for the solid angle) lies in that plane: its signed distance is taken as exactly zero,
+    // so that nearly coplanar triangles are handled by the coplanar test instead of by the signs of rounding noise.
+    #define SNAP_COPLANAR(d,v,N) if ((d)*(d) <= 1e-20*DOT(N,N)*DOT(v,v)) d = 0.0;
+
     bool tri_tri_overlap_test_3d(double p1[3], double q1[3], double r1[3],
                                  double p2[3], double q2[3], double r2[3])
     {
@@ -165,10 +170,13 @@ namespace OpenMEEG {
 
       SUB(v1,p1,r2)
       dp1 = DOT(v1,N2);
+      SNAP_COPLANAR(dp1,v1,N2)
       SUB(v1,q1,r2)
       dq1 = DOT(v1,N2);
+      SNAP_COPLANAR(dq1,v1,N2)
       SUB(v1,r1,r2)
       dr1 = DOT(v1,N2);
+      SNAP_COPLANAR(dr1,v1,N2)
 
       if (((dp1 * dq1) > 0.0f) && ((dp1 * dr1) > 0.0f))  return 0;
 
@@ -180,10 +188,13 @@ namespace OpenMEEG {
 
       SUB(v1,p2,r1)
       dp2 = DOT(v1,N1);
+      SNAP_COPLANAR(dp2,v1,N1)
       SUB(v1,q2,r1)
       dq2 = DOT(v1,N1);
+      SNAP_COPLANAR(dq2,v1,N1)
       SUB(v1,r2,r1)
       dr2 = DOT(v1,N1);
+      SNAP_COPLANAR(dr2,v1,N1)
 
       if (((dp2 * dq2) > 0.0f) && ((dp2 * dr2) > 0.0f)) return 0;
 
@@ -465,7 +476,15 @@ namespace OpenMEEG {
 
     /* some 2D macros */
 
-    #define ORIENT_2D(a, b, c)  ((a[0]-c[0])*(b[1]-c[1])-(a[1]-c[1])*(b[0]-c[0]))
+    // Orientation of (a,b,c); a value below the rounding level of its own evaluation (relative 1e-10) is an exact zero:
+    // collinear points stay collinear after a rigid motion of the model.
+    static inline double orient_2d(const double a[2],const double b[2],const double c[2]) {
+        const double l = (a[0]-c[0])*(b[1]-c[1]);
+        const double r = (a[1]-c[1])*(b[0]-c[0]);
+        const double o = l-r;
+        return (std::fabs(o)<=1e-10*(std::fabs(l)+std::fabs(r))) ? 0.0 : o;
+    }
+    #define ORIENT_2D(a, b, c)  orient_2d(a,b,c)
 
 
     #define INTERSECTION_TEST_VERTEX(P1, Q1, R1, P2, Q2, R2) {\
